@@ -1138,7 +1138,7 @@ func c18RunShard(R *vk.Report, tier string, seed uint64, shard int, caseLog *os.
 			s.dribble = dr
 		}
 		origin := map[string]any{"list": "sequences", "index": i, "shard": shard, "records": len(recs), "total_bytes": len(s.buf)}
-		bad := false
+		bad, nameChanged := false, false
 		for j, rec := range recs {
 			typ, got, err := c18Decode(s, rec.Kind)
 			key := "seq:" + rec.Kind
@@ -1153,6 +1153,7 @@ func c18RunShard(R *vk.Report, tier string, seed uint64, shard int, caseLog *os.
 			case !c18Equal(rec.V, got):
 				if m, isM := rec.V.(manifest.Manifest); isM && manifestInvalidNames(m) && c18Equal(manifestCoerced(m), got) {
 					st.UTF8["headers_in_sequences_changed_by_round_trip"]++
+					nameChanged = true
 					violate(c18KnownKey, "manifest header at the start of a record sequence: names that are not valid UTF-8 are decoded as different names", rec, ex)
 					// framing is intact; keep decoding the rest of the sequence
 				} else {
@@ -1183,7 +1184,7 @@ func c18RunShard(R *vk.Report, tier string, seed uint64, shard int, caseLog *os.
 		if withHeader {
 			st.SeqHeaders++
 		}
-		if !bad {
+		if !bad && !nameChanged {
 			st.SeqOK++
 		}
 		for _, rec := range recs {
